@@ -186,19 +186,59 @@ func (p *Program) Method(pkg, typ, name string) *types.Func {
 			}
 		}
 	}
-	// rename tolerance (own types only): exactly one method whose name is a near miss (spelling fix such
-	// as Dispacher -> Dispatcher); the rules judge the function by its structure, not by its name
-	if p.IsOwn(n.Obj().Pkg()) {
+	if !p.IsOwn(n.Obj().Pkg()) {
+		return nil
+	}
+	// The method may have become a plain function taking the receiver as first parameter
+	// (g.checkVersion() -> checkVersion(g)), or have been renamed by a spelling fix (Dispacher ->
+	// Dispatcher).  Candidates, most specific first: same-name function, near-miss method, near-miss
+	// function; a step resolves only if it has exactly one candidate.  The rules judge the function by
+	// its structure, not by its name.
+	recvFirst := func(match func(string) bool) (*types.Func, int) {
 		var cand *types.Func
 		k := 0
-		for i := 0; i < n.NumMethods(); i++ {
-			if m := n.Method(i); nearName(m.Name(), name) {
-				cand = m
+		sc := n.Obj().Pkg().Scope()
+		for _, fnName := range sc.Names() {
+			f, ok := sc.Lookup(fnName).(*types.Func)
+			if !ok || !match(fnName) {
+				continue
+			}
+			sig := f.Type().(*types.Signature)
+			if sig.Params().Len() == 0 {
+				continue
+			}
+			t := sig.Params().At(0).Type()
+			if pt, ok := t.(*types.Pointer); ok {
+				t = pt.Elem()
+			}
+			if nn, ok := t.(*types.Named); ok && nn.Obj() == n.Obj() {
+				cand = f
 				k++
 			}
 		}
-		if k == 1 {
-			p.noteRename(pkg+"."+typ+"."+name, cand.Name())
+		return cand, k
+	}
+	if cand, k := recvFirst(func(s string) bool { return s == name || strings.EqualFold(s, name) }); k == 1 {
+		PseudoMethod[cand] = true
+		p.noteRename(pkg+"."+typ+"."+name, "func "+cand.Name()+"(recv, ...)")
+		return cand
+	}
+	var cand *types.Func
+	k := 0
+	for i := 0; i < n.NumMethods(); i++ {
+		if m := n.Method(i); nearName(m.Name(), name) {
+			cand = m
+			k++
+		}
+	}
+	if k == 1 {
+		p.noteRename(pkg+"."+typ+"."+name, cand.Name())
+		return cand
+	}
+	if k == 0 {
+		if cand, k2 := recvFirst(func(s string) bool { return nearName(s, name) }); k2 == 1 {
+			PseudoMethod[cand] = true
+			p.noteRename(pkg+"."+typ+"."+name, "func "+cand.Name()+"(recv, ...)")
 			return cand
 		}
 	}
